@@ -11,7 +11,7 @@ META = {
              "(all INT-xx rules, calendar / publication / authentication alternatives); verdict table of each internal rule "
              "function equals the documented one; guard tables tie each OK/FAIL verdict to the comparison it documents (one slice per "
              "absent component); chain shape value table around the 64-bit boundary and for truth values other than 1; RFC3161 output-hash table "
-             "with two different algorithm ids",
+             "with two different algorithm ids; RFC3161 chain index equal to (not a prefix of) the first chain's",
         note="decides policy shape, verdict tables and comparison guards from the source; does NOT decide that recomputed hash "
              "values equal an independent evaluation, nor the accepting direction; engine semantics taken from C05",
         tech="static analysis: rule-table enumeration under the engine semantics + explicit-state CFG exploration of verdict stores + must-pass guards",
@@ -66,7 +66,8 @@ META = {
         text="static: serializers evaluated over abstract output buffers for the boundary classes of length / tag / flags / buffer "
              "size (no write outside the buffer, short buffer refused, exact header bytes, >0xffff refused); detach re-mapping; "
              "a refused mutation leaves the length fields unchanged; reader dereferences behind length checks; exact-tiling error exits; "
-             "the element codec's nested split over stray octets; scratch buffers hold the largest element",
+             "the element codec's nested split over stray octets; scratch buffers hold the largest element; memReadN tiling table; "
+             "re-encoding never writes into the buffer the nested elements point into; element append / set / remove bookkeeping",
         note="decides the boundary classes named in the evidence; payload bytes are opaque, round-trip of arbitrary trees is not decided",
         tech="static analysis: finite abstract evaluation of the CFG over abstract byte buffers + dominating range checks + error-on-condition",
         ref="DESIGN.md §4 C09"),
@@ -96,7 +97,7 @@ META = {
              "and status; accounting pairs; finalisation table; cache-full predicate; accounting tables of addRequest and of a received "
              "configuration over what the configuration slot holds (accepted = pending + 1, refused = nothing changed, no unreturned "
              "request leaves the slot); send-timeout table; cache growth keeps every outstanding request in its slot; endpoint configuration is "
-             "all-or-nothing",
+             "all-or-nothing; the response context is read as a response only in state RESPONSE_RECEIVED",
         note="decides delivery guards, accounting pairs and the listed tables; exactly-once over all schedules is not decided",
         tech="static analysis: must-pass guards + paired-effect (control equivalence) + decision tables",
         ref="DESIGN.md §4 C13"),
@@ -147,7 +148,7 @@ META = {
              "reference taken is never discarded; all-or-nothing decision tables for the multi-step updates found by the commit-then-fail "
              "scan (parallel lists of the context, builder close with a root level, level-correction update, prepending a chain - the last one "
              "fails 8 rows on today's tree: known finding F74); whole-struct copies re-assign every released pointer field; a borrowed list element "
-             "is not put into a second owning list",
+             "is not put into a second owning list; a caller's object is taken over only as the last fallible step",
         note="decides ownership / NULL-check / status rules on every exit of every function and 'unchanged after a refused call' for the "
              "tabled functions; that repeating ANY operation gives the fault-free result is decided only where a table exists; third-party libraries are trusted",
         tech="static analysis: ownership typestate over the goto-cleanup CFG + status hygiene",
